@@ -191,6 +191,8 @@ var soupFrags = []string{
 	" 9223372036854775807", " 9223372036854775808", " -9223372036854775808", " 18446744073709551615", " 18446744073709551616", " 12345678901234567890123",
 	" // comment", " // c \r\n", "//x\n", " 1_0", " 0x", " 1e", " +", " -", " 0b2", " 42abc", " 0b102", " 0o78", " 0x1G", " 1.5.5", " . .", " . . .", " ..", " <A 321>", " <A 256>", "é", "\u2003", "\u00a0", "\u0085", "\v", "\f", "\xff", "\xc3",
 	" \"é\"", " \"\xff\"", " \u017f1f1", " \"a\\\" \"b\"", " \"100%\"", " \"unclosed", " \"line\nbreak\"", " \"\nx\"", " [", " [x]", " ]", " @", " #", " W<", " S1F1<", "<L<A \"x\">>", "<L v ... >",
+	// line breaks and comments inside a size declaration (the only token that can span lines)
+	" [1\n]", " [\n2 ]", " [1 // c\n..3]", " [ 0\r\n.. 2 ]", "<U1[1\n] 256>", "<L [2\n] <A[\n1] \"ab\">>",
 	// digits and letters outside ASCII, also directly behind a dot, a sign, an exponent or a name
 	".\u0663", " \u0663", "\u0663", "\uff15", " e.\u0663", " 1.\u0663", " 1\u0663", " -\u0969", " 1e\u0663", " x\u0663", " 0x\uff21", "\u00b2", " v[\u0661]", " [\u0662]", " S\u0661F\u0661",
 }
